@@ -292,3 +292,56 @@ Proof.
   rewrite <- (term_stable rw lg2 (ll_last (abs lg1)) HI2 U3) by (rewrite ?U2, ?Habs21; lia).
   rewrite (term_abs rw lg2 _ HI2), Habs21, Hterm. cbn [bind term_ok_eq]. rewrite N.eqb_refl. reflexivity.
 Qed.
+
+(* ================================================================== *)
+(* 8.5 the leader through propose + persist, decomposed                *)
+(* ================================================================== *)
+
+Lemma propose_persist_parts rwl L d ps L2 :
+  r_state L = Leader -> get_pr L (r_id L) = Some ps -> r_lead_transferee L = None ->
+  r_max_uncommitted_size L = u64_max ->
+  RepInv rwl (r_log L) -> u_snapshot (unst (r_log L)) = None ->
+  committed (r_log L) <= last_index (r_log L) -> last_index (r_log L) + 1 < u64_max ->
+  r_term L <> 0 ->
+  propose_persist L d = Ok L2 ->
+  let LL1 := ll_append (abs (r_log L)) [new_ent L d] in
+  let last1 := last_index (r_log L) + 1 in
+  exists lg1 L1 lg2,
+    RepInv rwl lg1 /\ abs lg1 = LL1 /\ committed lg1 = committed (r_log L) /\
+    bcast_append (L <| r_log := lg1 |>) = Ok L1 /\ r_log L1 = lg1 /\
+    RepInv rwl lg2 /\ abs lg2 = LL1 /\ committed lg2 = committed (r_log L) /\
+    maybe_persist lg2 last1 (r_term L) = Ok (set_persisted lg2 last1, true) /\
+    RepInv rwl (set_persisted lg2 last1) /\
+    on_persist_entries (L1 <| r_log := lg2 |>) last1 (r_term L) = Ok L2.
+Proof.
+  intros Hs Hg Htr Hmx HI Hsn Hc Hb HT H. cbv zeta.
+  set (last1 := last_index (r_log L) + 1).
+  pose proof (abs_last rwl _ HI) as Hlast.
+  unfold propose_persist in H. rewrite (step_propose L d ps Hs Hg Htr Hmx) in H.
+  assert (Hei : e_index (new_ent L d) = ll_last (abs (r_log L)) + 1) by (cbn; rewrite Hlast; reflexivity).
+  destruct (propose_log rwl (r_log L) (new_ent L d) HI Hsn ltac:(lia) Hei ltac:(lia))
+    as (lg1 & z & Hap & HI1 & Habs1 & Hcm1 & Hpe1 & Hpe1' & Hsn1 & Hne1 & Hl1).
+  rewrite Hap in H. cbn [bind fst] in H.
+  destruct (bcast_append (L <| r_log := lg1 |>)) as [L1|s] eqn:Hbc; cbn [bind fst] in H; [|discriminate].
+  pose proof (bcast_append_log _ _ Hbc) as Hlog1. cbn in Hlog1.
+  change (r_log (L <| r_log := lg1 |>)) with lg1 in Hlog1.
+  unfold persist_leader in H. rewrite Hlog1 in H.
+  assert (Hlast1 : ll_last (abs lg1) = last1).
+  { rewrite Habs1, (ll_append1_last _ _ Hei). subst last1. rewrite Hlast. reflexivity. }
+  assert (Hterm1 : ll_term (abs lg1) (ll_last (abs lg1)) = SOk (r_term L)).
+  { rewrite Hlast1. subst last1. rewrite Hlast, Habs1.
+    rewrite (ll_append1_term_new _ _ Hei). reflexivity. }
+  destruct (persist_log rwl lg1 (new_ent L d) (r_term L) HI1 Hsn1 Hne1 Hl1 eq_refl Hterm1)
+    as (st' & lg2 & Happ & Hst & Hidx & HI2 & Habs2 & Hcm2 & Hmp).
+  { rewrite Hlast1. subst last1. rewrite Habs1, ll_append1_base. rewrite Hlast. unfold ll_last. lia. }
+  { rewrite Hlast1. subst last1. rewrite Hlast. lia. }
+  destruct (u_entries (unst lg1)) as [|e0 rest] eqn:Eu; [congruence|].
+  rewrite Happ in H. cbn [bind] in H. rewrite Hl1 in H. rewrite Hst in H. cbn [bind] in H.
+  change (e_term (new_ent L d)) with (r_term L) in H, Hst.
+  rewrite Hidx, Hlast1 in H. rewrite Hlast1 in Hmp.
+  destruct (maybe_persist_ok rwl lg2 last1 (r_term L) HI2) as (l' & b' & Hmp' & HI3 & _).
+  rewrite Hmp in Hmp'. inversion Hmp'; subst l' b'.
+  exists lg1, L1, lg2. split; [exact HI1|]. split; [exact Habs1|]. split; [exact Hcm1|].
+  split; [exact Hbc|]. split; [exact Hlog1|]. split; [exact HI2|]. split; [congruence|].
+  split; [congruence|]. split; [exact Hmp|]. split; [exact HI3|exact H].
+Qed.
